@@ -19,6 +19,9 @@ CLAIMED = {
  "C05": ("Unit level: RangeEntry/Range/RangeNumber membership for every signed, unsigned and decimal64 candidate and every pair of bounds (full-width symbolic, min/max open ends as symbolic flags), alternatives, leaf-list element-wise checks and 11 restriction texts through the real newRange. System level: a schema compiled by the real loader inside the interpreter (typedef chains of 2 and 3 levels, min/max, uint64 bounds, length, patterns incl. invert-match, enum) and Selection.Set/SetValue executed against a reference store: accepted iff inside every level, rejected writes issue zero Field writes, accepted writes store exactly the value. Bounded model checking.",
          NOTE_COMMON + "Outside the claim: the regular-expression engine (native on the enumerated concrete strings used), writes arriving from JSON/XML readers, binary length, restriction expressions other than the listed schema and texts (structure is enumerated, values are symbolic). Known finding C05-patterns-ored.",
          "DESIGN.md §2 C05"),
+ "C11": ("Unit level: IfFeature.Evaluate against an RPN oracle for a generated catalogue of expressions (689 quick / 2628 thorough texts: ASTs up to 3 binary operators, minimal / full parenthesisation, extra blanks) under all 16 assignments of 4 features (symbolic Bools, every assignment explored), 16 malformed texts must be errors, allow-list / deny-list / all-on FeatureSet with its cache. System level: the real loader is executed inside the interpreter for 10 guardable statement kinds (leaf, container, list, leaf-list, choice, case, uses, augment, refine, anydata) x 2 expressions x allow/deny x 16 list memberships: guarded definition present iff the expression holds and neighbours untouched; 20 deviations (not-supported, add, replace, delete x property) must compile to the same canonical schema dump as the module with the property written inline.",
+         NOTE_COMMON + "Outside the claim: expression texts and module shapes are enumerated catalogues (only the feature assignment is symbolic); rpc and notification guards are not in the property's list of guardable statements and are not checked; deviate replace type.",
+         "DESIGN.md §2 C11"),
 }
 NA_REASON = "engine under construction; no check registered yet"
 
